@@ -26,7 +26,7 @@ use std::{
     collections::HashMap,
     fs::{self, File, OpenOptions},
     io::{Read, Write},
-    path::{Path, PathBuf},
+    path::{Component, Path, PathBuf},
     sync::{
         Arc, RwLock,
         atomic::{AtomicU64, AtomicUsize, Ordering},
@@ -288,8 +288,23 @@ impl<K: CacheKey + 'static> DiskCache<K> {
     }
 
     /// Generate file path for a cache key
-    fn get_file_path(&self, key: &K) -> PathBuf {
+    ///
+    /// A key may use `/` to organise entries in sub-directories of the cache
+    /// directory, but every component has to be a plain name. Keys that are
+    /// empty, absolute, or contain a `.` or `..` component are rejected: joined
+    /// onto the cache directory they would address the directory itself or a
+    /// file outside of it.
+    fn get_file_path(&self, key: &K) -> CacheResult<PathBuf> {
         let key_str = key.as_cache_key();
+
+        let mut components = Path::new(key_str).components().peekable();
+        if components.peek().is_none()
+            || !components.all(|component| matches!(component, Component::Normal(_)))
+        {
+            return Err(CacheError::Backend(format!(
+                "invalid cache key {key_str:?}: not a relative path of plain names"
+            )));
+        }
 
         if self.config.use_subdirectories {
             // Create hierarchical directory structure using key hash
@@ -310,9 +325,9 @@ impl<K: CacheKey + 'static> DiskCache<K> {
             }
 
             path.push(key_str);
-            path
+            Ok(path)
         } else {
-            self.config.cache_dir.join(key_str)
+            Ok(self.config.cache_dir.join(key_str))
         }
     }
 
@@ -540,7 +555,7 @@ impl<K: CacheKey + 'static> AsyncCache<K> for DiskCache<K> {
             }
         } else {
             // Not in index - try to find file on disk as fallback
-            let file_path = self.get_file_path(key);
+            let file_path = self.get_file_path(key)?;
             if file_path.exists() {
                 // Found file on disk - try to read it and add to index
                 match self.read_file(&file_path).await {
@@ -590,7 +605,7 @@ impl<K: CacheKey + 'static> AsyncCache<K> for DiskCache<K> {
         let start_time = Instant::now();
         let size_bytes = value.len();
 
-        let file_path = self.get_file_path(&key);
+        let file_path = self.get_file_path(&key)?;
 
         // Write data to disk
         self.write_file(&file_path, &value).await?;
@@ -669,7 +684,7 @@ impl<K: CacheKey + 'static> AsyncCache<K> for DiskCache<K> {
             // Not indexed by this instance: a file written by a previous
             // instance may still exist, and `get` would serve it through its
             // on-disk fallback. Remove it so that a removed key stays removed.
-            let file_path = self.get_file_path(key);
+            let file_path = self.get_file_path(key)?;
             Ok(file_path.is_file() && fs::remove_file(&file_path).is_ok())
         }
     }
